@@ -59,6 +59,9 @@ def run(ctx: Ctx, rep: Report) -> None:
         'bqskit/ir/circuit.py', 'bqskit/qis/', 'bqskit/ir/gates/'), 15)
     rule_pow2(ctx, rep, (
         'bqskit/qis/unitary/', 'bqskit/qis/state/', 'bqskit/ir/circuit.py'))
+    # nothing is memoised from state that is handed out by reference
+    from .circuit_edit import memoalias
+    memoalias(ctx, rep)
 
 
 def _loops_over_ops(f) -> list[ast.For]:
